@@ -48,6 +48,9 @@ func FixPEChecksum(f *os.File) error {
 	return nil
 }
 
+// cksumPos value meaning "no checksum field (left) to skip"
+const noChecksumField = -1 << 31
+
 type peChecksum struct {
 	cksumPos  int
 	sum, size uint32
@@ -59,7 +62,7 @@ type peChecksum struct {
 func NewPEChecksum(peStart int) hash.Hash {
 	var cksumPos int
 	if peStart <= 0 {
-		cksumPos = -1
+		cksumPos = noChecksumField
 	} else {
 		cksumPos = peStart + 88
 	}
@@ -75,7 +78,7 @@ func (peChecksum) BlockSize() int {
 }
 
 func (h *peChecksum) Reset() {
-	h.cksumPos = -1
+	h.cksumPos = noChecksumField
 	h.sum = 0
 	h.size = 0
 }
@@ -91,19 +94,34 @@ func (h *peChecksum) Write(d []byte) (int, error) {
 		copy(d2, d)
 		d = d2
 	}
-	ckpos := -1
-	if h.cksumPos > n {
+	// Blank out whatever part of the 4-byte checksum field lies in this chunk,
+	// wherever the chunk boundary and the field's alignment happen to fall.
+	// cksumPos is the field's offset relative to the start of this chunk and
+	// may go negative while the field straddles two chunks.
+	if h.cksumPos != noChecksumField {
+		lo, hi := h.cksumPos, h.cksumPos+4
+		if lo < n && hi > 0 {
+			if lo < 0 {
+				lo = 0
+			}
+			if hi > n {
+				hi = n
+			}
+			d2 := make([]byte, len(d))
+			copy(d2, d)
+			for i := lo; i < hi; i++ {
+				d2[i] = 0
+			}
+			d = d2
+		}
 		h.cksumPos -= n
-	} else if h.cksumPos >= 0 {
-		ckpos = h.cksumPos
-		h.cksumPos = -1
+		if h.cksumPos <= -4 {
+			h.cksumPos = noChecksumField
+		}
 	}
 	sum := h.sum
 	for i := 0; i < n; i += 2 {
 		val := uint32(d[i+1])<<8 | uint32(d[i])
-		if i == ckpos || i == ckpos+2 {
-			val = 0
-		}
 		sum += val
 		sum = 0xffff & (sum + (sum >> 16))
 	}
